@@ -8,7 +8,7 @@
  * forwarding lemmas (plain crate, primitive arithmetic uninterpreted): every operator form equals
    the named method, and column c of A*B is A.mul_vec(B.col(c)) - so the product law follows from the
    mul_vec contract.
- * exact-lattice lemmas (entries symbolic small integers, IEEE evaluation exact, spec in i64):
+ * exact-lattice lemmas (entries symbolic small integers, IEEE evaluation exact, spec in i16):
      M*v, A*B, (A*B)*v == A*(B*v), determinant == Laplace expansion (rank-deficient => exactly 0),
      inverse(M)*det(M) == adj(M) exactly whenever |det| is a power of two (then 1/det is exact).
    Together with the degree argument of DESIGN 3.5 this identifies the polynomial the code computes."""
@@ -111,11 +111,15 @@ def build(config, tier):
         fw.append('{ let mut u = a; u *= s; let mut q = a; q /= s; check!(mk::msame(u, a.mul_scalar(s)) && mk::msame(q, a.div_scalar(s)), "*= s, /= s"); }')
         obs.append(Ob("%s_forwarding_assign" % pre, PROP, "\n    ".join(fw), fn="%s assign operators" % N, kind="lemma", solver="cadical", stubs=["sse"] + fw_stubs, plain=True,
                       clauses=len(fw) - 1, cls="forwarding", desc="%s: assign operator forms equal the named methods bit-for-bit (named methods uninterpreted)" % N))
-        # column c of mul_mat is mul_vec of column c (only mul_vec uninterpreted)
+        # column c of mul_mat is mul_vec of column c (only mul_vec uninterpreted) - where the source forwards
+        srcm = open(os.path.join(weave.REPO, f)).read()
+        mm_body = re.search(r"pub fn mul_mat%d\(&self, rhs: &Self\) -> Self \{(.*?)\n    \}" % n, srcm, re.S)
+        forwards = bool(mm_body and "self.mul(rhs." in mm_body.group(1))
         fw = ["let a = mk::<%s>(); let b = mk::<%s>(); let p = a.mul_mat%d(&b);" % (N, N, n)]
         for c_ in range(n):
             fw.append('check!(mk::same(p.col(%d), a.%s(b.col(%d))), "column %d of A*B is A * B.col(%d)");' % (c_, mv, c_, c_, c_))
-        obs.append(Ob("%s_mul_mat_columns" % pre, PROP, "\n    ".join(fw), fn="%s::mul_mat%d" % (N, n), kind="lemma", solver="cadical",
+        if forwards:
+          obs.append(Ob("%s_mul_mat_columns" % pre, PROP, "\n    ".join(fw), fn="%s::mul_mat%d" % (N, n), kind="lemma", solver="cadical",
                       stubs=["sse", ("%s::%s" % (P, mv), "crate::%s::mul_vec" % mod)], plain=True, clauses=n, cls="forwarding",
                       desc="%s::mul_mat%d: column c of A*B is bit-for-bit A.%s(B.col(c)) for any function in place of %s - the product law follows from the mul_vec contract" % (N, n, mv, mv)))
         # ---- exact lattice
@@ -123,19 +127,19 @@ def build(config, tier):
         B = 1
         head = "let ai = sp::lat%d(%d); let a = %s;" % (NN, B, mctor(M, "ai"))
         for (meth, V) in MULVEC[N]:
-            body = head + " let vi = sp::lat%d(%d); let v = %s; let r = a.%s(v); let e = sp::mv%d(ai, vi);\n    check!(%s, \"M*v exact\");" % (
-                n, B, vctor(V, w, n, "vi"), meth, n, " && ".join("%s(r.to_array()[%d], e[%d])" % (eqi, i, i) for i in range(n)))
-            obs.append(Ob("%s_lat_%s" % (pre, meth), PROP, body, fn="%s::%s" % (N, meth), kind="lemma", solver="cadical", stubs=["sse"], cls="lattice",
-                          tier="quick" if (t == "f32" and n < 4) or N == "Mat4" else "thorough",
-                          desc="%s::%s on the lattice {-1,0,1}: every lane is the exact integer sum_c entry(r,c)*v[c]" % (N, meth)))
-        # A*B exact, per pair of columns for 4x4
-        colgroups = [list(range(n))] if n < 4 else [[0, 1], [2, 3]]
-        for gi, cg in enumerate(colgroups):
-            body = head + " let bi = sp::lat%d(%d); let b = %s; let r = a.mul_mat%d(&b).to_cols_array(); let e = sp::mm%d(ai, bi);\n    check!(%s, \"A*B exact\");" % (
-                NN, B, mctor(M, "bi"), n, n, " && ".join("%s(r[%d], e[%d])" % (eqi, c * n + r_, c * n + r_) for c in cg for r_ in range(n)))
-            obs.append(Ob("%s_lat_mul_mat_%d" % (pre, gi), PROP, body, fn="%s::mul_mat%d" % (N, n), kind="lemma", solver="cadical", stubs=["sse"], cls="lattice",
+            for lane in range(n):
+                body = head + " let vi = sp::lat%d(%d); let v = %s; let r = a.%s(v); let e = sp::mv%d(ai, vi);\n    check!(%s(r.to_array()[%d], e[%d]), \"M*v exact (lane %d)\");" % (
+                    n, B, vctor(V, w, n, "vi"), meth, n, eqi, lane, lane, lane)
+                obs.append(Ob("%s_lat_%s_l%d" % (pre, meth, lane), PROP, body, fn="%s::%s" % (N, meth), kind="lemma", solver="cadical", stubs=["sse"], cls="lattice",
+                              tier="quick" if (t == "f32" and n < 4) or N == "Mat4" else "thorough",
+                              desc="%s::%s on the lattice {-1,0,1}: lane %d is the exact integer sum_c entry(r,c)*v[c]" % (N, meth, lane)))
+        # A*B exact, one harness per column
+        for c_ in range(n):
+            body = head + " let bi = sp::lat%d(%d); let b = %s; let r = a.mul_mat%d(&b).to_cols_array(); let e = sp::mm%d(ai, bi);\n    check!(%s, \"A*B exact (column %d)\");" % (
+                NN, B, mctor(M, "bi"), n, n, " && ".join("%s(r[%d], e[%d])" % (eqi, c_ * n + r_, c_ * n + r_) for r_ in range(n)), c_)
+            obs.append(Ob("%s_lat_mul_mat_c%d" % (pre, c_), PROP, body, fn="%s::mul_mat%d" % (N, n), kind="lemma", solver="cadical", stubs=["sse"], cls="lattice",
                           tier="quick" if (not big and t == "f32") else "thorough",
-                          desc="%s A*B on the lattice {-1,0,1}: columns %s are the exact integer matrix product" % (N, cg)))
+                          desc="%s A*B on the lattice {-1,0,1}: column %d is the exact integer matrix product" % (N, c_)))
         # associativity with a vector
         body = head + " let bi = sp::lat%d(%d); let b = %s; let vi = sp::lat%d(%d); let v = %s;\n    let l = (a * b) * v; let r = a * (b * v); let e = sp::mv%d(ai, sp::mv%d(bi, vi));\n    check!(%s, \"(A*B)*v == A*(B*v) exact\");" % (
             NN, B, mctor(M, "bi"), n, B, vctor(M.col, w, n, "vi"), n, n,
@@ -151,11 +155,12 @@ def build(config, tier):
         # inverse: |det| a power of two => inverse * det == adj exactly
         if n < 4:
             adj = "sp::adj%d(ai)" % n
-            conds = " && ".join("%s(r[%d] * (di as %s), ad[%d])" % (eqi, i, t, i) for i in range(NN))
-            body = head + " let di = sp::det%d(ai); vk::assume(di == 1 || di == -1 || di == 2 || di == -2 || di == 4 || di == -4); let r = a.inverse().to_cols_array(); let ad = %s;\n    check!(%s, \"inverse * det == adj\");" % (n, adj, conds)
-            obs.append(Ob("%s_lat_inverse" % pre, PROP, body, fn="%s::inverse" % N, kind="lemma", solver="cadical", stubs=["sse"], cls="lattice",
-                          tier="quick" if t == "f32" else "thorough",
-                          desc="%s::inverse on lattice matrices whose determinant is +-1, +-2 or +-4: inverse(M) * det(M) == adj(M) exactly, entry by entry" % N))
+            for c_ in range(n):
+                conds = " && ".join("%s(r[%d] * (di as %s), ad[%d])" % (eqi, c_ * n + r_, t, c_ * n + r_) for r_ in range(n))
+                body = head + " let di = sp::det%d(ai); vk::assume(di == 1 || di == -1 || di == 2 || di == -2 || di == 4 || di == -4); let r = a.inverse().to_cols_array(); let ad = %s;\n    check!(%s, \"inverse * det == adj (column %d)\");" % (n, adj, conds, c_)
+                obs.append(Ob("%s_lat_inverse_c%d" % (pre, c_), PROP, body, fn="%s::inverse" % N, kind="lemma", solver="cadical", stubs=["sse"], cls="lattice",
+                              tier="quick" if t == "f32" else "thorough",
+                              desc="%s::inverse, column %d, on lattice matrices whose determinant is +-1, +-2 or +-4: inverse(M) * det(M) == adj(M) exactly" % (N, c_)))
         else:
             for c_ in range(4):
                 conds = " && ".join("%s(r[%d] * (di as %s), sp::adj4_entry(ai, %d, %d))" % (eqi, c_ * 4 + r_, t, r_, c_) for r_ in range(4))
